@@ -24,6 +24,9 @@ def gen_dump(rng):
     for _ in range(rng.randint(1, 10)):
         ns = rng.choice(NSIDS)
         base = rng.choice(TITLES)
+        if rng.random() < 0.12:
+            # the titles add_default_templates supplies when the dump lacks them
+            ns, base = 10, rng.choice(["!", "=", "((", "))"])
         if ns != 0 and rng.random() < 0.2:
             # a page name that itself begins with a spelling of its own namespace (alias, English key, local name, lower case)
             key, nsd = c10.NS_BY_ID[ns]
@@ -56,8 +59,9 @@ def gen_dump(rng):
         else:
             body = rng.choice(BODIES)
             includable = body
-        if rng.random() < 0.15:
-            red = canon_title(rng.choice(TITLES), ns)
+        if rng.random() < (0.5 if base in ("!", "=", "((", "))") else 0.15):
+            # mostly within the namespace (existing, dangling or itself a redirect), sometimes into another namespace
+            red = canon_title(rng.choice(TITLES), ns if rng.random() < 0.75 else rng.choice(NSIDS))
         pages.append({"title": title, "ns": ns, "model": model, "redirect": red, "text": body, "includable": includable})
     nsset = sorted(set(rng.sample(NSIDS, rng.randint(1, len(NSIDS)))))
     return {"pages": pages, "nsset": nsset}
